@@ -72,3 +72,50 @@ FINDING_CLASSES = {}
 
 NOT_YET = {}
 HOOK_COMMITS = []
+
+
+# ---------------------------------------------------------------------------
+# cbor-dec: impl = "ok <consumed> <tokens>" | "err <class> <ntoks>" | "panic" | "hang"
+#           model = "<same> | <alloc> | <spec: ok consumed tokens | err class | fuel>"
+# ---------------------------------------------------------------------------
+
+def split_dec(model):
+    parts = model.split(" | ")
+    return parts[0], (parts[1] if len(parts) > 1 else "0"), (parts[2] if len(parts) > 2 else "")
+
+
+def cmp_c04_dec(payload, impl, model):
+    dec, alloc, spec = split_dec(model)
+    if spec == "fuel" or dec.startswith("hang") or dec.startswith("panic"):
+        return mism("model/spec did not produce a verdict: dec=%s spec=%s" % (dec[:60], spec[:60]))
+    if spec.startswith("ok"):
+        if impl != spec:
+            return viol("input begins with a well-formed item; expected %s, decoder gave %s" % (spec[:120], impl[:120]))
+    else:
+        if not impl.startswith("err"):
+            return viol("input does not begin with a well-formed supported item (reference parser: %s) but the decoder gave %s" % (spec, impl[:120]))
+    # model automaton vs reference parser (should be excluded by the theorems)
+    d2 = dec if dec.startswith("ok") else "err"
+    s2 = spec if spec.startswith("ok") else "err"
+    if d2 != s2:
+        return mism("decoder model and reference parser disagree: %s vs %s" % (dec[:80], spec[:80]))
+    return None
+
+
+def nt_c04_dec(payload, impl, model):
+    dec, alloc, spec = split_dec(model)
+    return len(payload) > 6
+
+
+PROPS["C04"] = dict(
+    coq="Properties_C04",
+    level_text="Proved in Coq for all byte strings and both option settings: the decoder automaton model returns exactly what the recursive-descent reference reading of RFC 7049 (restricted to refmt's subset) returns - the same tokens and rest when the input begins with a well-formed item, an error otherwise - and never panics or runs out of fuel; heads decode to the value the relational head spec assigns. Half-float widening is checked exhaustively in the kernel. Tied to cbor.Decoder by a correspondence run (all inputs <= 2 bytes, all <= 3 over a structural alphabet, all half floats, prefixes and mutations of generated items).",
+    level_note="Trusted: Coq kernel, extraction, OCaml driver, Go harness; hand-written model tied to the Go code by differential testing. The reference parser shares the flat terminal decoders (heads, floats, chunked strings) with the model; they are characterised separately against the relational head spec. No axioms.",
+    rule="byte strings generated as described per suite; non-trivial = input longer than 2 bytes; distinct by payload",
+    trusted_base=TB_COMMON,
+    assumptions=["float32->float64 conversion quiets signalling NaNs (amd64 CVTSS2SD), pinned by the correspondence on all half floats and sampled singles", "Go int is 64 bit"],
+    suites=[
+        ("cbor-dec", dict(cmp=cmp_c04_dec, nontrivial=nt_c04_dec,
+                          what="cbor.NewDecoder(opts, r).Step vs CborDec.dec_run and CborParse.parse_item: all byte strings <= 2 (quick) / 3 (thorough) bytes, all strings <= 3/4 over a 46-byte structural alphabet, all 65536 half floats, sampled singles, head boundaries on every major, generated items in random spellings with every proper prefix and single-byte mutations, deep nesting; both option settings")),
+    ],
+)
